@@ -768,6 +768,10 @@ mod os {
                     | (error_buf[1] as u32) << 8
                     | (error_buf[2] as u32) << 16
                     | (error_buf[3] as u32) << 24;
+                // The child could not exec and is exiting.  Reap it here so
+                // that a failed launch leaves no zombie behind even when the
+                // (never returned) Popen was requested to be detached.
+                self.os_wait().ok();
                 Err(PopenError::from(io::Error::from_raw_os_error(
                     error_code as i32,
                 )))
